@@ -332,6 +332,7 @@ package protocol
 //@   posts_only
 //@   noframe
 //@   may_panic
+//@   preserves ghost(wr), ghost(dsent)
 //@   requires u != nil
 //@   assert_call ReplayCache.IsDuplicate: len(arg0) == 16 && baseof(arg0) == baseof(b) && len(b) >= 48
 //@   assert_at "return seg, addr, nil": u.isClient || (!isNewSessionReplay && blockCipher != nil)
@@ -342,16 +343,88 @@ package protocol
 //@ func (u *PacketUnderlay) tryDecryptExistingSession(encryptedMeta []byte, addr net.Addr) (decryptedMeta []byte, blockCipher cipher.BlockCipher, matchedPolicy serveruser.Policy, decrypted bool)
 //@   mode int
 //@   noframe
-//@   preserves PacketUnderlay.baseUnderlay.isClient
+//@   preserves PacketUnderlay.baseUnderlay.isClient, ghost(wr), ghost(dsent)
 //@   requires u != nil
 //@
 //@ func (u *PacketUnderlay) serverTryDecryptMetadataForNewSession(encryptedMeta []byte, source serveruser.Source) (b cipher.BlockCipher, meta []byte, auth serveruser.Authentication, err error)
 //@   property C05
 //@   mode int
 //@   noframe
-//@   preserves PacketUnderlay.baseUnderlay.isClient
+//@   preserves PacketUnderlay.baseUnderlay.isClient, ghost(wr), ghost(dsent)
 //@   requires u != nil
 //@   ensures err == nil ==> b != nil
+//@
+//@ // TCP receive path (C05, C06): same fingerprint rule; nothing is written to the
+//@ // connection while a segment is read; a segment is returned only once a receive
+//@ // cipher is installed (on a server: only after Discover authenticated the first
+//@ // segment and it was not a replay), and a failed first segment leaves none installed.
+//@ func (t *StreamUnderlay) readOneSegment() (seg *segment, err error)
+//@   property C05
+//@   mode int
+//@   partial
+//@   posts_only
+//@   noframe
+//@   may_panic
+//@   preserves ghost(wr), ghost(dsent), StreamUnderlay.send, StreamUnderlay.baseUnderlay.isClient
+//@   requires t != nil
+//@   assert_call ReplayCache.IsDuplicate: len(arg0) == 16 && baseof(arg0) == baseof(encryptedMeta) && len(encryptedMeta) >= 48
+//@   assert_at "return seg, nil": t.recv != nil && (t.isClient || !isNewSessionReplay)
+//@   ensures seg != nil ==> t.recv != nil
+//@
+//@ func (t *StreamUnderlay) serverInitRecvBlockCipherAndDecryptMetadata(encryptedMeta []byte) (meta []byte, auth serveruser.Authentication, err error)
+//@   property C05
+//@   mode int
+//@   noframe
+//@   preserves ghost(wr), ghost(dsent), StreamUnderlay.send, StreamUnderlay.baseUnderlay.isClient
+//@   requires t != nil
+//@   ensures err == nil ==> t.recv != nil && old(t.recv) == nil
+//@   ensures err != nil ==> t.recv == nil || t.recv == old(t.recv)
+//@
+//@ // A server's send cipher is only ever derived from an installed receive cipher (C05).
+//@ func (t *StreamUnderlay) maybeInitSendBlockCipher() (err error)
+//@   property C05
+//@   mode int
+//@   noframe
+//@   preserves ghost(wr), ghost(dsent), StreamUnderlay.recv
+//@   requires t != nil && (t.isClient ==> t.block != nil)
+//@   ensures err == nil ==> t.send != nil
+//@   ensures !old(t.isClient) && old(t.send) == nil && old(t.recv) == nil ==> err != nil && t.send == nil
+//@
+//@ // Silence towards the unauthenticated (C05): on a server connection with neither a
+//@ // send nor a receive cipher - i.e. before any first segment authenticated - a write
+//@ // attempt fails without a single byte reaching the connection.
+//@ func (t *StreamUnderlay) writeOneSegment(seg *segment) (err error)
+//@   property C05
+//@   mode int
+//@   partial
+//@   posts_only
+//@   noframe
+//@   may_panic
+//@   requires t != nil && (t.isClient ==> t.block != nil)
+//@   ensures !old(t.isClient) && old(t.send) == nil && old(t.recv) == nil ==> err != nil && ghost(wr) == old(ghost(wr)) && t.send == nil
+//@
+//@ // What may create a server session (C05, C04): exactly an openSessionRequest with a
+//@ // non-zero session id; and the protocols a server accepts from a client at all.
+//@ func validateNewServerSessionSegment(seg *segment) (err error)
+//@   property C05 C04
+//@   mode int
+//@   requires seg != nil && seg.metadata != nil ==> (typeof(seg.metadata) == typeid(*sessionStruct) && payload(seg.metadata, *sessionStruct) != nil) || (typeof(seg.metadata) == typeid(*dataAckStruct) && payload(seg.metadata, *dataAckStruct) != nil)
+//@   ensures err == nil <==> (seg != nil && seg.metadata != nil && typeof(seg.metadata) == typeid(*sessionStruct) && payload(seg.metadata, *sessionStruct).baseStruct.protocol == uint8(openSessionRequest) && payload(seg.metadata, *sessionStruct).sessionID != 0)
+//@
+//@ func validateServerSegmentDirection(seg *segment) (err error)
+//@   property C05 C04
+//@   mode int
+//@   requires seg != nil && seg.metadata != nil ==> (typeof(seg.metadata) == typeid(*sessionStruct) && payload(seg.metadata, *sessionStruct) != nil) || (typeof(seg.metadata) == typeid(*dataAckStruct) && payload(seg.metadata, *dataAckStruct) != nil)
+//@   ensures err == nil ==> seg != nil && seg.metadata != nil
+//@   ensures seg != nil && typeof(seg.metadata) == typeid(*sessionStruct) ==> (err == nil <==> (payload(seg.metadata, *sessionStruct).baseStruct.protocol == uint8(openSessionRequest) || payload(seg.metadata, *sessionStruct).baseStruct.protocol == uint8(closeSessionRequest) || payload(seg.metadata, *sessionStruct).baseStruct.protocol == uint8(closeSessionResponse) || payload(seg.metadata, *sessionStruct).baseStruct.protocol == uint8(dataClientToServer) || payload(seg.metadata, *sessionStruct).baseStruct.protocol == uint8(dataClientToServerLowEntropy) || payload(seg.metadata, *sessionStruct).baseStruct.protocol == uint8(ackClientToServer)))
+//@   ensures seg != nil && typeof(seg.metadata) == typeid(*dataAckStruct) ==> (err == nil <==> (payload(seg.metadata, *dataAckStruct).baseStruct.protocol == uint8(dataClientToServer) || payload(seg.metadata, *dataAckStruct).baseStruct.protocol == uint8(dataClientToServerLowEntropy) || payload(seg.metadata, *dataAckStruct).baseStruct.protocol == uint8(ackClientToServer) || payload(seg.metadata, *dataAckStruct).baseStruct.protocol == uint8(openSessionRequest) || payload(seg.metadata, *dataAckStruct).baseStruct.protocol == uint8(closeSessionRequest) || payload(seg.metadata, *dataAckStruct).baseStruct.protocol == uint8(closeSessionResponse)))
+//@
+//@ struct callers newSessionWithServerUserPolicy = {PacketUnderlay.onOpenSessionRequest, StreamUnderlay.onOpenSessionRequest, NewSession}
+//@   property C05
+//@ struct callers PacketUnderlay.onOpenSessionRequest = {PacketUnderlay.RunEventLoop}
+//@   property C05
+//@ struct callers StreamUnderlay.onOpenSessionRequest = {StreamUnderlay.RunEventLoop}
+//@   property C05
 //@
 //@ // The only functions of this package that put bytes on the wire (C05): everything a
 //@ // receive path does before a segment is authenticated is outside this set.
